@@ -140,6 +140,75 @@ def runSequential (tasks : List Task) (failIdx : Option Nat) : List Task × Opti
   | some f => if f < tasks.length then (tasks.take (f + 1), some .handler) else (tasks, none)
   | none => (tasks, none)
 
+/-! ## RunOnRange as a scheduled system: producer, task channel, workers, cancellation of the caller's context
+
+  The producer loop pushes the sub-ranges in order into `taskCh` (capacity = concurrency) through
+  `select { case taskCh <- task: ; case <-ctx.Done(): break Loop }`, closes the channel and waits; each worker pulls,
+  tests `ctx.Done()` (⇒ `w.err = ctx.Err(); return`), calls the handler, and on a handler error sets `w.err`, cancels
+  and leaves. RunOnRange returns the first non-nil `w.err`, else nil. Workers are interchangeable for the result
+  class and the set of handled sub-ranges, so they are counted, not named. The schedule (which goroutine moves,
+  which ready `select` case is taken, when the caller cancels) is the input `List RunEv`; an event that is not
+  enabled is skipped, so every list is a schedule. -/
+
+inductive RunEv
+  | cancel             -- the caller's context is cancelled
+  | push               -- producer: `case taskCh <- task` (closes the channel after the last sub-range)
+  | abandon            -- producer: `case <-ctx.Done(): break Loop` (closes the channel, drops what was not pushed)
+  | pull               -- an idle worker receives from the channel (or finds it closed and empty)
+  | finish (fail : Bool) -- a busy worker's handler call returns (`fail` = with an error)
+  deriving DecidableEq, Repr
+
+structure RunSt where
+  cap : Nat                 -- capacity of taskCh (= concurrency)
+  pending : List Task       -- not yet pushed
+  queue : List Task         -- in the channel
+  handled : List Task       -- the handler was called on these
+  closed : Bool
+  abandoned : Bool          -- the producer left through ctx.Done() with sub-ranges not pushed
+  cancelled : Bool          -- the runner's context is done
+  idle : Nat
+  busy : Nat
+  okExit : Nat              -- workers that returned with w.err == nil
+  errExit : Nat             -- workers that returned with w.err != nil
+  deriving DecidableEq, Repr
+
+def RunSt.init (tasks : List Task) (workers : Nat) : RunSt :=
+  { cap := workers, pending := tasks, queue := [], handled := [], closed := tasks.isEmpty, abandoned := false,
+    cancelled := false, idle := workers, busy := 0, okExit := 0, errExit := 0 }
+
+def RunSt.step (st : RunSt) : RunEv → RunSt
+  | .cancel => { st with cancelled := true }
+  | .push =>
+    if !st.closed && decide (st.queue.length < st.cap) then
+      match st.pending with
+      | t :: r => { st with pending := r, queue := st.queue ++ [t], closed := r.isEmpty }
+      | [] => st
+    else st
+  | .abandon =>
+    if st.cancelled && !st.closed then { st with pending := [], closed := true, abandoned := true } else st
+  | .pull =>
+    if st.idle = 0 then st else
+    match st.queue with
+    | t :: q =>
+      if st.cancelled then { st with queue := q, idle := st.idle - 1, errExit := st.errExit + 1 }   -- w.err = ctx.Err()
+      else { st with queue := q, idle := st.idle - 1, busy := st.busy + 1, handled := st.handled ++ [t] }
+    | [] => if st.closed then { st with idle := st.idle - 1, okExit := st.okExit + 1 } else st
+  | .finish fail =>
+    if st.busy = 0 then st
+    else if fail then { st with busy := st.busy - 1, errExit := st.errExit + 1, cancelled := true }
+    else { st with busy := st.busy - 1, idle := st.idle + 1 }
+
+def RunSt.run (st : RunSt) (sched : List RunEv) : RunSt := sched.foldl RunSt.step st
+
+/-- RunOnRange has returned: channel closed, every worker gone -/
+def RunSt.done (st : RunSt) : Bool := st.closed && st.idle == 0 && st.busy == 0
+
+/-- `true` = RunOnRange returns nil -/
+def RunSt.resultNil (st : RunSt) : Bool := st.errExit == 0
+
+/-- every sub-range was handed to the handler -/
+def RunSt.complete (tasks : List Task) (st : RunSt) : Bool := tasks.all fun t => st.handled.contains t
+
 /-! ## GC: ResolveLocksForRange -/
 
 structure Lock where
